@@ -123,6 +123,12 @@ def variants_excluded(base):
                     d = copy.deepcopy(base)
                     d[si][1].insert(pos, field)
                     out.append((d, "%s in %s at %d" % (desc, sname, pos)))
+            # an embedded struct whose TYPE name is unexported is an unexported field like any other
+            for hid in (("audit", "éclair") if pos % 2 == 0 else ("_meta",)):
+                d = copy.deepcopy(base)
+                d.insert(0, (hid, [(["Rev"], ID("int32"), None), (["Note"], ("star", ID("string")), 'parquet:"note"'), (["Dirty"], ID("bool"), None)]))
+                d[si + 1][1].insert(pos, ([], ID(hid), None))
+                out.append((d, "unexported embedded struct %s in %s at %d" % (hid, sname, pos)))
     return out
 
 
